@@ -408,6 +408,117 @@ def judge_pairs(case, out):
     return bad
 
 
+# ------------------------------------------------------------------ type entries that stand under #ifdef / #ifndef / #else
+def gen_guarded(rng):
+    """type tables whose entries stand in the branches of conditionals; returns the text and, per section, the entries
+    (key, params, guard) in text order, guard = None | (tag, 'ifdef' | 'ifndef') read off the generated text"""
+    types = ['TA', 'TB', 'TC']
+    natoms = rng.randint(3, 5)
+    atoms = [rng.choice(types) for _ in range(natoms)]
+    lines = ['[ defaults ]', '1 2 no 1.0 1.0']
+    defined = []
+    for tag in ('FLEX', 'STIFF'):
+        if rng.random() < 0.4:
+            lines.append(f'#define {tag}')
+            defined.append(tag)
+    lines.append('[ atomtypes ]')
+    for t in types:
+        lines.append(f'{t} 12.0 0.0 A 0.3 1.0')
+    entries = {'bonds': [], 'angles': [], 'constraints': []}
+    inters = {'bonds': sorted({tuple(sorted(rng.sample(range(natoms), 2))) for _ in range(rng.randint(1, 2))}),
+              'angles': [tuple(rng.sample(range(natoms), 3))]}
+    if rng.random() < 0.5:
+        inters['constraints'] = [tuple(sorted(rng.sample(range(natoms), 2)))]
+    val = [0]
+    flip = rng.random() < 0.5
+
+    def entry(sec, guard):
+        it = rng.choice(inters[sec])
+        key = [atoms[i] for i in it]
+        # one direction per type sequence in the whole file (an exact-direction key shadows a reversed one; direction
+        # handling is the subject of the mask enumeration, not of this family)
+        key = min(key, key[::-1]) if flip else max(key, key[::-1])
+        val[0] += 1
+        params = {'bonds': ['1', f'0.{val[0]}', f'{100 * val[0]}'], 'angles': ['2', f'{100 + val[0]}', f'{10 * val[0]}'],
+                  'constraints': ['1', f'0.{val[0]}']}[sec]
+        entries[sec].append((key, params, guard))
+        return ' '.join(key) + ' ' + ' '.join(params)
+
+    secs = [s for s in ('bonds', 'angles', 'constraints') if s in inters]
+    for _ in range(rng.randint(2, 4)):
+        sec = rng.choice(secs)
+        form = rng.choice(['plain', 'inside', 'inside_else', 'around', 'around_else'])
+        tag = rng.choice(['FLEX', 'STIFF', 'OTHER'])
+        cond = rng.choice(['ifdef', 'ifndef'])
+        inv = 'ifndef' if cond == 'ifdef' else 'ifdef'
+        hdr = f'[ {sec[:-1]}types ]'
+        if form == 'plain':
+            lines += [hdr, entry(sec, None)]
+        elif form.startswith('inside'):
+            lines += [hdr, f'#{cond} {tag}'] + [entry(sec, (tag, cond)) for _ in range(rng.randint(1, 2))]
+            if form.endswith('else'):
+                lines += ['#else'] + [entry(sec, (tag, inv)) for _ in range(rng.randint(1, 2))]
+            lines.append('#endif')
+        else:
+            lines += [f'#{cond} {tag}', hdr] + [entry(sec, (tag, cond)) for _ in range(rng.randint(1, 2))]
+            if form.endswith('else'):
+                sec2 = rng.choice(secs)
+                lines += ['#else', f'[ {sec2[:-1]}types ]'] + [entry(sec2, (tag, inv)) for _ in range(rng.randint(1, 2))]
+            lines.append('#endif')
+    lines += ['[ moleculetype ]', 'MOL 1', '[ atoms ]']
+    for i, t in enumerate(atoms):
+        lines.append(f'{i + 1} {t} 1 RES A{i} {i + 1} 0.0 12.0')
+    for sec in secs:
+        lines.append(f'[ {sec} ]')
+        for it in inters[sec]:
+            lines.append(' '.join(str(i + 1) for i in it) + ' ' + {'bonds': '1', 'angles': '2', 'constraints': '1'}[sec])
+    n_inst = rng.randint(1, 3)
+    lines += ['[ system ]', 'x', '[ molecules ]', f'MOL {n_inst}']
+    return {'text': '\n'.join(lines) + '\n', 'atoms': atoms, 'inters': inters, 'entries': entries, 'n_inst': n_inst, 'defined': defined}
+
+
+def guarded_cases(ctx, n, extra=()):
+    """in every define state the parameters an interaction carries are those of the matching type entries that are active
+    in that state (the entry of the branch that holds), in every molecule instance"""
+    import pathlib
+    from polyply.src.topology import Topology
+    rng = ctx.rng
+    for case in [gen_guarded(rng) for _ in range(n)] + list(extra):
+        with systems.Workdir() as wd:
+            p = os.path.join(wd, 't.top')
+            with open(p, 'w') as fh:
+                fh.write(case['text'])
+            try:
+                top = Topology.from_gmx_topfile(name='x', path=pathlib.Path(p))
+                top.preprocess()
+            except Exception as exc:  # noqa
+                ctx.case(case['text'], nontrivial=False)
+                ctx.feature('guarded_types_rejected_' + type(exc).__name__)
+                continue
+        ctx.case(case['text'], nontrivial=True, sample={'top': case['text'][:500]})
+        ctx.feature('type_entries_under_conditionals')
+        bad = None
+        for k, mol in enumerate(top.molecules):
+            for sec, its in case['inters'].items():
+                for it in {tuple(i) for i in its}:
+                    ts = [case['atoms'][i] for i in it]
+                    match = [(params, guard) for key, params, guard in case['entries'][sec] if list(key) in (ts, ts[::-1])]
+                    got = [([str(x) for x in i.parameters], (i.meta['tag'], i.meta['condition']) if i.meta.get('tag') else None)
+                           for i in mol.molecule.interactions.get(sec, []) if tuple(i.atoms) == tuple(it)]
+                    if not match:
+                        continue
+                    for tags in ((), ('FLEX',), ('STIFF',), ('FLEX', 'STIFF'), ('OTHER',)):
+                        def active(g):
+                            return g is None or ((g[0] in tags) == (g[1] == 'ifdef'))
+                        want = [pr for pr, g in match if active(g)]
+                        have = [pr for pr, g in got if active(g)]
+                        if len(got[0][0]) > 1 and sorted(want) != sorted(have) and bad is None:
+                            bad = (f"{sec} on atoms {list(it)} (types {ts}) of instance {k}: with macros {list(tags)} defined the active parameters are "
+                                   f"{have}, the type entries active in that state are {want}")
+        if bad:
+            ctx.violation('spec', f"C09 fails on the implementation: {bad}", {'guarded_case': case, 'failure': bad, 'top': case['text']})
+
+
 def run(ctx):
     ctx.correspondences += ['Topology.from_gmx_topfile + preprocess() vs model/TopTypes.v on generated topologies',
                             'complete enumeration of 16 wildcard masks x key direction x listing direction x tie pairs',
@@ -418,6 +529,7 @@ def run(ctx):
     except core.CoqEvalError as exc:
         ctx.note(str(exc)[:600])
         ctx.broken.append('correspondence:translator-validation (evaluation failed)')
+    guarded_cases(ctx, ctx.n(40, 400))
     cases = [c for _, c in core.corpus_cases('C09')]
     enum = enumerate_masks()
     cases += enum
@@ -457,6 +569,11 @@ def search(ctx):
 
 def replay(ctx, data):
     print(json.dumps(data, indent=1, default=str)[:3000])
+    if data.get('guarded_case'):
+        before = len(ctx.violations)
+        guarded_cases(ctx, 0, extra=[data['guarded_case']])
+        print('replay:', 'violated' if len(ctx.violations) > before else 'statement satisfied on this topology')
+        return 1 if len(ctx.violations) > before else 0
     c = data.get('case')
     if not c:
         return 0
